@@ -40,4 +40,10 @@ CertifiedOptimumReturned ==
         best == S!BestHi(par, a, b)
         cand == {c \in Paths(Len(a), Len(b)) : S!Allowed(c) /\ S!ScoreOf(par, a, b, c, "hi") = best}
     IN \A c \in cand : S!UniqueOptimum(par, a, b, c, Slack) => c = p
+(* exploration only (stronger than C07 asks): the returned alignment, at its best, reaches the best alignment at its worst *)
+WithinInterval ==
+    LET p == Codes(Len(a), Len(b), Result.cells)
+        ps == {c \in Paths(Len(a), Len(b)) : S!Allowed(c)}
+        bestlo == CHOOSE x \in {S!ScoreOf(par, a, b, c, "lo") : c \in ps} : \A c \in ps : S!ScoreOf(par, a, b, c, "lo") <= x
+    IN S!ScoreOf(par, a, b, p, "hi") + Slack >= bestlo
 =============================================================================
